@@ -5,7 +5,8 @@ From Coq Require Import ZArith NArith String List Bool.
 Import ListNotations.
 From TP Require Import Base.PyVal Base.PyEq Fields.FieldAst Fields.SetChain Fields.Doc Struct.Instance
   Ser.Json Ser.Serialize Ser.Deserialize Ser.DocReading Ser.RoundTripProofs Ser.DeserProofs
-  Ser.DeserExn Ser.DeserExnProofs Gen.DeserFlow Ser.DeserFlowTie.
+  Ser.DeserExn Ser.DeserExnProofs Gen.DeserFlow Ser.DeserFlowTie Ser.AgreeProofs.
+From Coq Require Import Permutation.
 Local Open Scope string_scope.
 
 Section C06.
@@ -81,6 +82,35 @@ Section C06.
   Theorem C06_constructor_error_class : forall c kw x,
       class_all wf_field c = true -> construct re_match e c kw = Raise x -> okx x = true.
   Proof. exact (construct_okx re_match e). Qed.
+
+  (* "deserialize(d) succeeds exactly when d is the documented JSON form of arguments the constructor accepts,
+     and the result then equals the instance the constructor builds."
+     (8) Proved for the scalar fragment: a class whose fields are numbers, strings, booleans, literal enums or
+         Anything (any constraints, any _required / _additional_properties / _ignore_none / defaults / hook),
+         every object document with distinct string keys and no null member, keys in ANY order, any extra keys,
+         both flags, keep_undefined True/False: the code-shaped model (pre-validation per field in class order,
+         error collection for falsy inputs, extras first, the constructor) and the documented reading (the
+         members in document order handed to the constructor) accept the same documents with == instances and
+         otherwise both raise a TypeError/ValueError -- or one of the two models declines. *)
+  Theorem C06_agree_scalar : forall n ku cn c kv skv,
+      find_class e cn = Some c -> scalar_class c = true -> class_all wf_field c = true ->
+      NoDup (field_names c) ->
+      str_keys kv = Some skv -> NoDup (map fst skv) -> (forall k v, In (k, v) skv -> v <> PNone) ->
+      agree (deser_struct re_match e ens fl (S n) ku cn (PDict kv))
+            (spec_deser re_match e ens fl (S n) ku cn (PDict kv)) = true.
+  Proof. exact (agree_scalar re_match e ens fl). Qed.
+
+  (* (9) what (8) rests on: the constructor does not depend on the order of its keyword arguments -- for EVERY
+         class of the model (collections, wrappers, nested structures included): permuted arguments are both
+         accepted with == instances, or both rejected. *)
+  Theorem C06_constructor_order_free : forall c K1 K2,
+      Permutation K1 K2 -> NoDup (field_names c) ->
+      match construct re_match e c K1, construct re_match e c K2 with
+      | Ok x, Ok y => pyval_eqb (strip_none x) (strip_none y) = true
+      | Raise _, Raise _ => True
+      | _, _ => False
+      end.
+  Proof. exact (construct_perm re_match e). Qed.
 End C06.
 
 (* ... and it does occur: the full statement "every rejection is a TypeError/ValueError"
@@ -118,6 +148,27 @@ Example C06_error_class_nonvacuous :
   = Raise ValueError.
 Proof. vm_compute. repeat split; reflexivity. Qed.
 
+(* non-vacuity of (8): a class with an Integer and a String field, additional properties allowed; a document that
+   lists its members in another order than the class and has an extra key; both models accept, with == results *)
+Definition c06_cls2 : classdef :=
+  {| c_name := s2p "B"; c_ancestors := [];
+     c_fields := [{| fd_name := s2p "a"; fd_field := c06_int; fd_immutable := false; fd_default := None |};
+                  {| fd_name := s2p "b"; fd_field := c06_str; fd_immutable := false; fd_default := None |}];
+     c_required := [s2p "a"]; c_additional := true; c_ignore_none := false; c_immutable := false; c_hook := HookNone |}.
+Definition c06_doc2 : list (pystr * pyval) :=
+  [(s2p "b", PStr (s2p "x")); (s2p "zz", PNum (NInt 1)); (s2p "a", PNum (NInt 5))].
+
+Example C06_agree_scalar_nonvacuous :
+  scalar_class c06_cls2 = true /\ class_all wf_field c06_cls2 = true /\
+  str_keys (map (fun p => (PStr (fst p), snd p)) c06_doc2) = Some c06_doc2 /\
+  is_ok (deser_struct (fun _ _ => true) [c06_cls2] [] c06_flags 2 true (s2p "B")
+           (PDict (map (fun p => (PStr (fst p), snd p)) c06_doc2))) = true /\
+  res_equiv_tv (deser_struct (fun _ _ => true) [c06_cls2] [] c06_flags 2 true (s2p "B")
+                  (PDict (map (fun p => (PStr (fst p), snd p)) c06_doc2)))
+               (spec_deser (fun _ _ => true) [c06_cls2] [] c06_flags 2 true (s2p "B")
+                  (PDict (map (fun p => (PStr (fst p), snd p)) c06_doc2))) = true.
+Proof. vm_compute. repeat split; reflexivity. Qed.
+
 Print Assumptions C06_extra_keys_dropped.
 Print Assumptions C06_extra_keys_rejected.
 Print Assumptions C06_keep_undefined_adjustment.
@@ -126,6 +177,8 @@ Print Assumptions C06_wrapper_error_class.
 Print Assumptions C06_error_class.
 Print Assumptions C06_error_class_all.
 Print Assumptions C06_constructor_error_class.
+Print Assumptions C06_agree_scalar.
+Print Assumptions C06_constructor_order_free.
 Print Assumptions C06_src_list_like_handlers.
 Print Assumptions C06_src_wrapper_handler.
 Print Assumptions C06_src_fields_map_handler.
